@@ -586,6 +586,9 @@ Nop == /\ GenMode = "sim"
 \* matches neither order is reported as nonconformance.
 ParCallsOf(r) ==
     {[k |-> "Inject", m |-> m] : m \in {x \in Coop(r) : x.t # "data" \/ r.nInj < MaxData}}
+    \* the peer's connectionClose confirm (the answer to a local announce, or unsolicited): one more cause of the end that can
+    \* meet a local close or a transport error
+    \cup {[k |-> "Inject", m |-> [t |-> "close", ph |-> "confirm"]]}
     \cup (IF r.tRun /\ ~UnitsSlipCorner(r) THEN {[k |-> "Timeout"]} ELSE {})
     \cup (IF r.role = "server" /\ ~userDone THEN {[k |-> "Approve"], [k |-> "Cancel"]} ELSE {})
     \cup (IF ~r.once THEN {[k |-> "Close", safe |-> TRUE], [k |-> "Close", safe |-> FALSE]} ELSE {})
